@@ -91,7 +91,7 @@ func c18Classify(rt cexec.Ret) c18Path {
 			} else {
 				p.eq = "no"
 			}
-		case (a.Op == "==" || a.Op == "!=") && a.RC != nil && *a.RC == 0 && strings.Contains(a.L, " ^ ") && strings.Contains(a.L, ".ipv6_addr"):
+		case (a.Op == "==" || a.Op == "!=") && a.RC != nil && *a.RC == 0 && strings.Contains(a.L, " ^ ") && strings.Contains(a.L, ".ipv6_addr") && c18OnlyOr(a.L):
 			// branch-free comparison: the OR of the byte-wise XORs of source and bound address is tested against zero
 			terms := strings.Count(a.L, " ^ ")
 			withBound := strings.Count(a.L, ".ipv6_addr")
@@ -474,4 +474,14 @@ func factText(ft flow.Fact) string {
 		return pol + "(" + b.X.Name() + " " + b.Op.String() + " " + b.Y.Name() + ")"
 	}
 	return pol + ft.Cond.String()
+}
+
+// c18OnlyOr: the byte differences are combined with | only (a sum can wrap to zero, an & can mask a difference).
+func c18OnlyOr(expr string) bool {
+	for _, op := range []string{" + ", " - ", " & ", " * ", " << ", " >> ", " % ", " / "} {
+		if strings.Contains(expr, op) {
+			return false
+		}
+	}
+	return true
 }
